@@ -193,9 +193,13 @@ def tlaps_proofs(module="LoopAbsProofs", needs=("LoopAbs.tla",),
     for f in tuple(needs) + (module + ".tla",):
         shutil.copy(os.path.join(SPEC, f), d)
     t = time.time()
-    p = subprocess.run(["timeout", "900", "tlapm", "--threads", "8", "--cache-dir", os.path.join(d, "cache"), module + ".tla"],
-                       cwd=d, stdout=subprocess.PIPE, stderr=subprocess.STDOUT, text=True)
-    m = re.search(r"All (\d+) obligations proved", p.stdout)
+    m = None
+    for stretch in ("1", "5"):       # a loaded machine can time a back end out: one retry with longer prover timeouts
+        p = subprocess.run(["timeout", "900", "tlapm", "--threads", "8", "--stretch", stretch, "--cache-dir", os.path.join(d, "cache"), module + ".tla"],
+                           cwd=d, stdout=subprocess.PIPE, stderr=subprocess.STDOUT, text=True)
+        m = re.search(r"All (\d+) obligations proved", p.stdout)
+        if m:
+            break
     if not m:
         raise ToolError(f"tlapm did not prove {module}.tla: " + p.stdout[-600:])
     return {"module": module, "obligations_proved": int(m.group(1)), "wall_s": round(time.time() - t, 1),
